@@ -110,9 +110,15 @@ def render_scene(r, kind):
                'tall': [(8.0, 8.0), (9.0, 30.0), (10.0, 52.0), (24.0, 10.0), (23.0, 34.0), (24.0, 53.0)]}[frame]
     r.shuffle(centres)
     srcs = []
-    for (cx0, cy0) in centres[:r.randint(1, 4)]:
+    chosen = centres[:r.randint(1, 4)]
+    for (cx0, cy0) in chosen:
         if r.random() < 0.2:
-            cx0 = r.choice([1.3, nx - 2.4])                                  # cluster hugging an edge
+            # cluster hugging an edge - unless that brings it within reach of another cluster (clusters must stay isolated
+            # from each other: only members of one cluster may contaminate each other)
+            cand = r.choice([1.3, nx - 2.4])
+            if all(o == (cx0, cy0) or math.hypot(cand - o[0], cy0 - o[1]) >= 16.0 for o in chosen) \
+                    and all(math.hypot(cand - s_[0], cy0 - s_[1]) >= 14.0 for s_ in srcs):
+                cx0 = cand
         bx, by = cx0 + r.uniform(-1, 1), cy0 + r.uniform(-1, 1)
         srcs.append((bx, by, r.uniform(200, 900)))
         for _ in range(r.choice([0, 0, 1, 2])):
